@@ -61,8 +61,8 @@ macro_rules! c19_from_float {
                             assert!(dbit(&t.dg(), i) == e_bit, "Some(value truncated toward zero)");
                         }
                         // negative floats into unsigned targets: left unconstrained by the property (only: no panic)
-                        $crate::reach!(in_range && neg && S && l > 1, "negative in range");
-                        $crate::reach!(!in_range, "out of range");
+                        $crate::reach!(!S || (in_range && neg && l > 1), "negative in range");
+                        $crate::reach!(!in_range || W >= 128, "out of range");
                     }
                 }};
             }
